@@ -27,7 +27,7 @@ for path, r, out in res:
         tags.setdefault(tag, []).extend(i * check.NSHARDS + k for i in idx)
 cases = open(work + "/cases.jsonl").read().splitlines()
 for tag in sorted(tags):
-    v = sorted(tags[tag]); print(tag, len(v), v[:10])
+    v = sorted(tags[tag]); print(tag, len(v), v[:10] if not os.environ.get("DEV_FULL") else v)
 show = [t for t in tags if not t.startswith("hyp_") and tags[t]]
 if show:
     i = sorted(tags[show[0]])[0]
